@@ -1044,7 +1044,7 @@ fn leg_c(cfg: &Cfg, sink: &Sink) -> Local {
 
 pub fn run(cfg: &Cfg) -> Outcome {
     let leg = cfg.opt("--leg");
-    let want = |x: &str| leg.as_deref().map(|l| l == x).unwrap_or(cfg.only_case.is_none());
+    let want = |x: &str| leg.as_deref().map(|l| l == x).unwrap_or(cfg.only_case.is_none() || cfg.opt("--only-stream").is_some());
     let sink = Sink::new(&format!("{}/pdus.jsonl", cfg.out));
     let mut local = Local::new();
     if want("A") {
